@@ -108,6 +108,28 @@ func (propC19) Gen(seed uint64, tier string, idx int) *Plan {
 	}
 	stmtYields(r, p, 300)
 	p.Deadline = 60 * time.Second
+	if nOps >= 3 && r.Chance(150) {
+		// two bursts with more than an hour of silence between them: the collector's housekeeping (records
+		// unused for an hour, swept at most every five minutes, triggered by a finished request) runs while
+		// attempts of the second burst are in flight
+		gap := 61*time.Minute + r.Dur(0, 30*time.Minute)
+		for i := range p.Ops {
+			if i >= len(p.Ops)/2 {
+				p.Ops[i].At += gap
+			}
+		}
+		for i := range p.Endpoints {
+			ep := &p.Endpoints[i]
+			ep.Default.PreDelay = pickS(r, []time.Duration{0, 50 * time.Millisecond, 300 * time.Millisecond, 600 * time.Millisecond})
+			for j := range ep.Seq {
+				if ep.Seq[j].Fault == nil && r.Chance(500) {
+					ep.Seq[j].PreDelay = pickS(r, []time.Duration{50 * time.Millisecond, 300 * time.Millisecond, 600 * time.Millisecond})
+				}
+			}
+		}
+		p.Deadline += gap
+		p.Sub += "/idle-hour"
+	}
 	p.Settle = 4 * time.Second // read time-outs and disconnect grace periods must have run out
 	return p
 }
